@@ -256,7 +256,7 @@ GrantSrc(s, a) ==
                   IF -2 \in g THEN -2 ELSE IF g = {} THEN -1 ELSE CHOOSE m \in g : \A x \in g : x <= m
 Grant(sends, a) ==
     LET g == {GrantSrc(sends[i].src, a) : i \in 1..Len(sends)} IN
-    IF -2 \in g THEN -2 ELSE CHOOSE m \in g : \A x \in g : x <= m
+    IF -2 \in g THEN -2 ELSE IF g = {} THEN -1 ELSE CHOOSE m \in g : \A x \in g : x <= m
 
 RECURSIVE NeverOverdrawn(_, _, _)
 \* C01: replaying the postings in order never takes a non-world account below -(granted overdraft)
